@@ -251,7 +251,7 @@ def judge(s, events, tag):
     cfg = ""
     tf = d / f"{tag}.trace.ndjson"
     keep = ("cmd", "k", "idx", "fr", "ok", "chain", "locals", "lerr", "args", "aerr", "res", "raw")
-    vlib.ndjson_write(tf, [{k: e[k] for k in keep} for e in events])
+    vlib.ndjson_write(tf, [{k: e[k] for k in keep} for e in events], tla=True)
     r = sesslib.tlc_in(d, "MCV", cfg + "SPECIFICATION TraceSpec\nINVARIANT TraceDone\n", "MCV.cfg", workers=1,
                        env={"TRACE": str(tf)}, timeout=900, heap="3g")
     if r.error or r.violated:
